@@ -769,6 +769,16 @@ pub fn comb(n: usize) -> (MP, MP) {
     (a, b)
 }
 
+/// the same comb against a box over its upper left corner only: the box's segments sit at the top of the status
+/// structure, so no lookup ever walks down the chain that bottom-to-top insertion of the comb builds (a lookup near
+/// the bottom would halve its depth); at the early stop the status structure is a chain of 2n segments
+pub fn comb_corner(n: usize) -> (MP, MP) {
+    let a: MP = (0..n).map(|i| vec![rect_ring(0.0, i as f64, 100.0, i as f64 + 0.5)]).collect();
+    let top = n as f64;
+    let b: MP = vec![vec![rect_ring(-1.0, top - 0.75, 1.0, top + 1.0)]];
+    (a, b)
+}
+
 /// k nested square rings alternating between the operands
 pub fn nested_squares(k: usize) -> (MP, MP) {
     let mut a: MP = Vec::new();
